@@ -230,6 +230,7 @@ type c10Case struct {
 	extra     []c10Acct // further pre-state accounts of a boundary family
 	accts0bal *big.Int  // balance of the called contract, when the family fixes it
 	ecHighS   bool      // input of the ECRECOVER precompile with s in the upper half of the group order
+	absent    []common.Address // accounts that must not exist (or be empty, without storage) after the run: failed creations
 	// exact-gas family: the program was first run with ample gas and used exactly `exactUsed`; the case proper
 	// is given exactUsed+exactDelta and must end the same way with exactDelta left (or out of gas when < 0)
 	exactOn    bool
@@ -1800,16 +1801,36 @@ func c10Boundary(r *c10Rand, c *c10Case, self, other common.Address) (code []byt
 	case 19: // code deposit: return large runtime / not enough gas for deposit
 		name = "code-deposit"
 		x := newAsm()
-		x.push(uint64([]int{0, 1, 100, 1000, 24576, 24577, 39231, 39232}[r.Intn(8)])).push(0).op(RETURN)
+		size := []int{0, 1, 100, 1000, 24576, 24577, 39231, 39232, 39232, 39233, 50000}[r.Intn(11)]
+		if r.Chance(1, 2) { // the constructor leaves traces of its own before returning the code
+			x.push(7).push(1).op(SSTORE)
+			x.push(3).push(0).push(0).op(LOG1)
+		}
+		x.push(uint64(size)).push(0).op(RETURN)
 		init := x.bytes()
 		c10StoreBytes(a, init)
-		a.push(uint64(len(init))).push(0).push(0).op(CREATE)
+		endow := uint64(r.Intn(2) * (1 + r.Intn(20)))
+		c.accts0bal = big.NewInt(int64(50 + r.Intn(50)))
+		two := r.Chance(1, 3)
+		var created common.Address
+		if two {
+			a.push(5).push(uint64(len(init))).push(0).push(endow).op(CREATE2)
+			created = crypto.CreateAddress2(self, common.BigToHash(big.NewInt(5)), crypto.Keccak256(init))
+		} else {
+			a.push(uint64(len(init))).push(0).push(endow).op(CREATE)
+			created = crypto.CreateAddress(self, 1)
+		}
 		a.op(DUP1).op(EXTCODESIZE).push(1).op(SSTORE)
-		a.push(0).op(SSTORE).op(STOP)
+		a.push(0).op(SSTORE)
+		a.pushAddr(created).op(BALANCE).push(2).op(SSTORE).op(STOP)
 		if r.Chance(1, 2) {
 			c.gas = 100000 + uint64(r.Intn(400000))
 		} else {
 			c.gas = 20000000
+		}
+		if size > configs.MaxCodeSize {
+			// the creation fails (exceptional halt of the create frame): nothing of it may remain
+			c.absent = append(c.absent, created)
 		}
 	case 20: // invalid / undefined opcodes
 		name = "undefined-opcode"
@@ -2198,6 +2219,7 @@ func c10Boundary(r *c10Rand, c *c10Case, self, other common.Address) (code []byt
 		a.op(STOP)
 	case 39: // offsets of 2^64 and more whose LOW 64 bits are a perfectly valid offset: nothing may be read / reached there
 		name = "offset-high-bits"
+		c.value = big.NewInt(0) // the run itself must start: its outcome is the oracle
 		hi := func(k uint64) *big.Int {
 			return new(big.Int).Add(new(big.Int).Lsh(big.NewInt(1), uint(64*(1+r.Intn(3)))), new(big.Int).SetUint64(k))
 		}
@@ -2665,6 +2687,14 @@ func TestVerifC10(t *testing.T) {
 		}
 		if c.specClass != "" && res.panic == "" && !res.timeout && res.class != c.specClass {
 			o.Fail(0, c.specName, fmt.Sprintf("kind=%s %s: must end with %s, got class=%s ret=%x", c.kind, c.specWhat, c.specClass, res.class, res.ret))
+		}
+		for _, ad := range c.absent {
+			pre := "A " + hex.EncodeToString(ad[:]) + " "
+			for _, l := range res.accts {
+				if strings.HasPrefix(l, pre) && res.panic == "" {
+					o.Fail(0, "kvm-failed-create-leaves-state", fmt.Sprintf("kind=%s a creation whose constructor returned more than %d bytes of code fails; the account must not exist afterwards, found [%s]", c.kind, configs.MaxCodeSize, c10Trunc(l)))
+				}
+			}
 		}
 		if c.exactOn && res.panic == "" && !res.timeout {
 			o.Count(fmt.Sprintf("exact-gas:delta%+d", func() int64 {
